@@ -25,7 +25,7 @@ META = {
              "contained in the other (pairs), >=2 non-empty inputs sharing an element (multi-way); distinct by content"),
     "require": {"quick": ["kernel_calls", "wrapper_calls", "many_calls", "insitu_workloads", "many:chain",
                           "presentation:strided", "presentation:view_in_buffer", "class:lopsided", "class:lopsided>32768",
-                          "class:views_of_one_buffer", "many:more_than_16_arrays", "class:buffers_refilled_in_place",
+                          "class:views_of_one_buffer", "many:more_than_16_arrays", "class:buffers_refilled_in_place", "class:contiguous_run_operand",
                           "threads:calls_overlapping_another_thread's_call",
                           "class:left_empty", "class:right_empty", "class:touching", "class:nested",
                           "class:interleaved", "class:identical"],
@@ -276,6 +276,20 @@ def run_shard(ctx):
             elif n % 25 == 7:
                 a, b = K.shared_base_views(rng)
                 ctx.count("class:views_of_one_buffer")
+            elif n % 25 == 13:
+                # one operand is an unbroken run of consecutive row ids (16..200 of them) ending on a word boundary
+                # (2^32-1, 2^31, 65535, 255) or anywhere; the other one overlaps it in every way
+                ln = int(K.pickone(rng, [16, 31, 32, 33, 64, 200]))
+                end = int(K.pickone(rng, [2 ** 32 - 1, 2 ** 32 - 1, 2 ** 31, 2 ** 31 - 1, 65535, 65536, 255, int(rng.integers(300, 10 ** 6))]))
+                end = max(end, ln)
+                run = numpy.arange(end - ln + 1, end + 1, dtype=numpy.uint64).astype(U32)
+                lo_ = max(0, end - 3 * ln)
+                pool = numpy.arange(lo_, min(2 ** 32, end + 2 * ln), dtype=numpy.uint64)
+                other = numpy.sort(rng.choice(pool, size=min(len(pool), int(rng.integers(1, 2 * ln))), replace=False)).astype(U32)
+                if rng.random() < 0.3:
+                    other = numpy.unique(numpy.concatenate([other, run[-1:]]))
+                a, b = (other, run) if rng.random() < 0.6 else (run, other)
+                ctx.count("class:contiguous_run_operand")
             run_pair(ctx, so, a, b, "random")
             if s.get("long"):
                 ctx.count("long_pairs")
